@@ -110,45 +110,86 @@ func rulesReadNCBI(c *Ctx, r *Report, rd, ex *ssa.Function) {
 		}
 	})
 	r.check(okChar, "STAR", fname(ex), "other labels are their byte", c.pos(ex.Pos()), "any other single-character label returns that character", "a single-character label other than \"*\" is not returned as its own byte")
-	// CELL: m[[2]byte{c, chars[i]}] = ParseFloat(val) with val = valStrs[1:][i]
+	// CELL: m[[2]byte{rowLabel, chars[j]}] = ParseFloat(values[j+1], 64), values[0] being the row label's text
 	okCell := false
+	cellWhy := "no map update with a ParseFloat value found"
 	instrs(rd, func(in ssa.Instruction) {
 		mu, ok := in.(*ssa.MapUpdate)
 		if !ok {
 			return
 		}
-		v := s.expr(mu.Value).String()
-		// value: extract:0(call:strconv.ParseFloat(load(slice(X, 1, _)[I]), 64))
-		if !strings.HasPrefix(v, "extract:0(call:strconv.ParseFloat(load(slice(") || !strings.HasSuffix(v, ", 64))") {
+		v := s.expr(mu.Value)
+		// value: extract:0(call:strconv.ParseFloat(<elem>, 64))
+		if v.Op != "extract:0" || len(v.Args) != 1 || !strings.HasPrefix(v.Args[0].Op, "call:strconv.ParseFloat") || len(v.Args[0].Args) != 2 {
 			return
 		}
+		elem := v.Args[0].Args[0]
+		// elem = load(index(BASE, I)) or index(BASE, I); BASE = slice(V, lo, _) or V
+		if elem.Op == "load" {
+			elem = elem.Args[0]
+		}
+		if elem.Op != "index" {
+			cellWhy = "the parsed text is not an element of the row's value list: " + elem.String()
+			return
+		}
+		base, idx := elem.Args[0], linOf(elem.Args[1])
+		if base.Op == "slice" {
+			if base.Args[2].String() != "_" {
+				cellWhy = "the value list is cut at its end: " + base.String()
+				return
+			}
+			if base.Args[1].String() != "_" {
+				lo := linOf(base.Args[1])
+				idx = linSub(idx, linSub(linForm{coef: map[string]int64{}}, lo)) // idx + lo
+			}
+			base = base.Args[0]
+		}
 		// key array elements
-		if ld, ok := mu.Key.(*ssa.UnOp); ok {
-			if al, ok := ld.X.(*ssa.Alloc); ok {
-				var el [2]string
-				for _, ref := range *al.Referrers() {
-					if ia, ok := ref.(*ssa.IndexAddr); ok {
-						k, _ := cInt(constVal(ia.Index))
-						for _, r2 := range *ia.Referrers() {
-							if st, ok := r2.(*ssa.Store); ok && k >= 0 && k < 2 {
-								el[k] = s.expr(st.Val).String()
-							}
-						}
+		ld, ok := mu.Key.(*ssa.UnOp)
+		if !ok {
+			return
+		}
+		al, ok := ld.X.(*ssa.Alloc)
+		if !ok {
+			return
+		}
+		var el [2]*Sym
+		for _, ref := range *al.Referrers() {
+			if ia, ok := ref.(*ssa.IndexAddr); ok {
+				k, _ := cInt(constVal(ia.Index))
+				for _, r2 := range *ia.Referrers() {
+					if st, ok := r2.(*ssa.Store); ok && k >= 0 && k < 2 {
+						el[k] = s.expr(st.Val)
 					}
-				}
-				// el[0] = row label (extractSingleChar(valStrs[0])), el[1] = load(chars[I]) with the same I as the value
-				i1 := strings.Index(v, ")[")
-				idx := ""
-				if i1 >= 0 {
-					idx = v[i1+2 : strings.Index(v[i1:], "])")+i1]
-				}
-				if strings.HasPrefix(el[0], "extract:0(call:formats/smtext.extractSingleChar(") && strings.HasSuffix(el[1], "["+idx+"])") && idx != "" {
-					okCell = true
 				}
 			}
 		}
+		if el[0] == nil || el[1] == nil {
+			cellWhy = "the key is not a two-element array built in place"
+			return
+		}
+		// row label: extract:0(call extractSingleChar(load(index(base, 0))))
+		rowOK := el[0].Op == "extract:0" && len(el[0].Args) == 1 && strings.Contains(el[0].Args[0].Op, "call:") && len(el[0].Args[0].Args) == 1
+		if rowOK {
+			a0 := el[0].Args[0].Args[0]
+			if a0.Op == "load" {
+				a0 = a0.Args[0]
+			}
+			rowOK = a0.Op == "index" && a0.Args[0].String() == base.String() && a0.Args[1].String() == "0"
+		}
+		// column label: load(index(CHARS, J)) with value index = J + 1
+		col := el[1]
+		if col.Op == "load" {
+			col = col.Args[0]
+		}
+		colOK := col.Op == "index" && linSub(idx, linOf(col.Args[1])).String() == "1"
+		if rowOK && colOK {
+			okCell = true
+		} else {
+			cellWhy = fmt.Sprintf("row label from element 0 of the same value list: %v; value index = column index + 1: %v (value %s, column %s)", rowOK, colOK, elem.String(), el[1].String())
+		}
 	})
-	r.check(okCell, "CELL", where, "score cell", c.pos(rd.Pos()), "the score stored under {row label, column label i} is ParseFloat(value i of the row, 64)", "the stored cell is not m[{rowLabel, chars[i]}] = ParseFloat(valStrs[1:][i], 64) with one index i for both")
+	r.check(okCell, "CELL", where, "score cell", c.pos(rd.Pos()), "the score stored under {row label, column label i} is ParseFloat(value i of the row, 64)", "the stored cell is not m[{rowLabel, chars[j]}] = ParseFloat(values[j+1], 64): "+cellWhy)
 	// COMMENT-RAW
 	okRaw := false
 	instrs(rd, func(in ssa.Instruction) {
@@ -328,55 +369,80 @@ func rulesGoString(c *Ctx, r *Report, f *ssa.Function) {
 		}
 	})
 	if sortCall == nil {
-		r.violated("GS", where, "sorted by key", c.pos(f.Pos()), "the keys are not sorted with sort.Slice before printing: lines appear in map order, or in an order that is not the key order")
-		return
-	}
-	okLess := false
-	if mc, ok := sortCall.Call.Args[1].(*ssa.MakeClosure); ok {
-		g := mc.Fn.(*ssa.Function)
-		// the sorted slice variable: what sort.Slice receives
-		var sortedCell ssa.Value
-		if mi, ok := sortCall.Call.Args[0].(*ssa.MakeInterface); ok {
-			if ld, ok := mi.X.(*ssa.UnOp); ok {
-				sortedCell = ld.X
-			}
-		}
-		elemOf := func(v ssa.Value, param int) bool {
-			// load(IndexAddr(load(FV bound to sortedCell), P<param>))
-			ld, ok := v.(*ssa.UnOp)
-			if !ok {
-				return false
-			}
-			ia, ok := ld.X.(*ssa.IndexAddr)
-			if !ok || ia.Index != ssa.Value(g.Params[param]) {
-				return false
-			}
-			base, ok := ia.X.(*ssa.UnOp)
-			if !ok {
-				return false
-			}
-			fv, ok := base.X.(*ssa.FreeVar)
-			return ok && bindingOf(fv) == sortedCell && sortedCell != nil
-		}
-		instrs(g, func(in ssa.Instruction) {
-			rt, ok := in.(*ssa.Return)
-			if !ok || len(rt.Results) != 1 {
-				return
-			}
-			bo, ok := rt.Results[0].(*ssa.BinOp)
-			if !ok || bo.Op != token.LSS {
-				return
-			}
-			k, okk := cInt(constVal(bo.Y))
-			cl, okc := bo.X.(*ssa.Call)
-			if okk && k == 0 && okc && fnIs(cl.Call.StaticCallee(), "bytes", "Compare") && len(g.Params) == 2 {
-				if elemOf(cl.Call.Args[0], 0) && elemOf(cl.Call.Args[1], 1) {
-					okLess = true
+		// slices.SortFunc(keys, bytes.Compare): the same order, stated directly
+		var sf *ssa.Call
+		instrs(f, func(in ssa.Instruction) {
+			if cl, ok := in.(*ssa.Call); ok {
+				if g := cl.Call.StaticCallee(); g != nil && g.Pkg == nil || g != nil && g.Pkg != nil && g.Pkg.Pkg.Path() == "slices" {
+					if strings.HasPrefix(g.Name(), "SortFunc") || strings.HasPrefix(g.Name(), "SortStableFunc") {
+						sf = cl
+					}
 				}
 			}
 		})
+		if sf != nil && len(sf.Call.Args) == 2 {
+			cmp := sf.Call.Args[1]
+			if ct, ok := cmp.(*ssa.ChangeType); ok {
+				cmp = ct.X
+			}
+			fn, _ := cmp.(*ssa.Function)
+			okCmp := fn != nil && fnIs(fn, "bytes", "Compare")
+			r.check(okCmp, "GS", where, "sorted by key", c.pos(sf.Pos()), "keys are sorted with slices.SortFunc by bytes.Compare: ascending key order", "the keys are sorted with a comparison other than bytes.Compare on the key bytes")
+			sortCall = sf
+		}
 	}
-	r.check(okLess, "GS", where, "sorted by key", c.pos(sortCall.Pos()), "keys are sorted by bytes.Compare(keys[i], keys[j]) < 0: ascending key order", "the sort's less function is not bytes.Compare(sorted[i], sorted[j]) < 0 on the key bytes: the listing is not in ascending key order for all symbols (e.g. escaped characters sort differently as text)")
+	if sortCall == nil {
+		r.violated("GS", where, "sorted by key", c.pos(f.Pos()), "the keys are not sorted with sort.Slice before printing: lines appear in map order, or in an order that is not the key order")
+		return
+	}
+	if fnIs(sortCall.Call.StaticCallee(), "sort", "Slice") {
+		okLess := false
+		if mc, ok := sortCall.Call.Args[1].(*ssa.MakeClosure); ok {
+			g := mc.Fn.(*ssa.Function)
+			// the sorted slice variable: what sort.Slice receives
+			var sortedCell ssa.Value
+			if mi, ok := sortCall.Call.Args[0].(*ssa.MakeInterface); ok {
+				if ld, ok := mi.X.(*ssa.UnOp); ok {
+					sortedCell = ld.X
+				}
+			}
+			elemOf := func(v ssa.Value, param int) bool {
+				// load(IndexAddr(load(FV bound to sortedCell), P<param>))
+				ld, ok := v.(*ssa.UnOp)
+				if !ok {
+					return false
+				}
+				ia, ok := ld.X.(*ssa.IndexAddr)
+				if !ok || ia.Index != ssa.Value(g.Params[param]) {
+					return false
+				}
+				base, ok := ia.X.(*ssa.UnOp)
+				if !ok {
+					return false
+				}
+				fv, ok := base.X.(*ssa.FreeVar)
+				return ok && bindingOf(fv) == sortedCell && sortedCell != nil
+			}
+			instrs(g, func(in ssa.Instruction) {
+				rt, ok := in.(*ssa.Return)
+				if !ok || len(rt.Results) != 1 {
+					return
+				}
+				bo, ok := rt.Results[0].(*ssa.BinOp)
+				if !ok || bo.Op != token.LSS {
+					return
+				}
+				k, okk := cInt(constVal(bo.Y))
+				cl, okc := bo.X.(*ssa.Call)
+				if okk && k == 0 && okc && fnIs(cl.Call.StaticCallee(), "bytes", "Compare") && len(g.Params) == 2 {
+					if elemOf(cl.Call.Args[0], 0) && elemOf(cl.Call.Args[1], 1) {
+						okLess = true
+					}
+				}
+			})
+		}
+		r.check(okLess, "GS", where, "sorted by key", c.pos(sortCall.Pos()), "keys are sorted by bytes.Compare(keys[i], keys[j]) < 0: ascending key order", "the sort's less function is not bytes.Compare(sorted[i], sorted[j]) < 0 on the key bytes: the listing is not in ascending key order for all symbols (e.g. escaped characters sort differently as text)")
+	}
 	// the sorted slice holds every key: appended in a range over m
 	s := newSymb(f)
 	okKeys := false
